@@ -58,7 +58,16 @@ class InjectedKeyError(KeyError):
         self.node = node
 
 
-EXC_KINDS = {"plain": InjectedFault, "noargs": InjectedNoArgs, "typeerror_kw": InjectedTypeError, "keyerror": InjectedKeyError}
+class InjectedValueError(ValueError):
+    hg_injected = True
+
+    def __init__(self, fid: Any, node: str) -> None:
+        super().__init__(f"injected value error {fid} in {node}")
+        self.fid = fid
+        self.node = node
+
+
+EXC_KINDS = {"valueerror": InjectedValueError, "plain": InjectedFault, "noargs": InjectedNoArgs, "typeerror_kw": InjectedTypeError, "keyerror": InjectedKeyError}
 InjectedFault.hg_injected = True
 
 
